@@ -510,14 +510,14 @@ fn build_env<const A: usize, const L: usize>(cfg: &ECfg, acts: &[Act]) -> AnyEnv
 fn apply_act<const A: usize, const L: usize>(env: &mut AnyEnv<A, L>, act: &Act, n_orders: &mut [usize], salt: u64) -> Option<Result<(usize, usize), ()>> {
     match act {
         Act::Submit(Instr::New { a, bid, vol, price }) => {
-            let r = env.place(*a, *bid, *vol, 100 + n_orders[*a] as u32, *price);
+            let r = env.place(*a, *bid, *vol, crate::ops::trader_for(n_orders[*a]), *price);
             if r.is_ok() {
                 n_orders[*a] += 1;
             }
             Some(r)
         }
         Act::Submit(Instr::BadNew { a, bid, vol, price }) => {
-            let r = env.place(*a, *bid, *vol, 100 + n_orders[*a] as u32, Some(*price));
+            let r = env.place(*a, *bid, *vol, crate::ops::trader_for(n_orders[*a]), Some(*price));
             if r.is_ok() {
                 n_orders[*a] += 1;
             }
@@ -810,7 +810,7 @@ fn visit<const A: usize, const L: usize>(cfg: &ECfg, st: &mut EStats, node: &ENo
                 match instr {
                     Instr::New { a, bid, vol, price } => {
                         if ret.is_some_and(|r| r.is_ok()) {
-                            let pop = POp::Create { a: *a, bid: *bid, vol: *vol, trader: 100 + node.n_orders[*a] as u32, price: *price };
+                            let pop = POp::Create { a: *a, bid: *bid, vol: *vol, trader: crate::ops::trader_for(node.n_orders[*a]), price: *price };
                             for c in child.cands.iter_mut() {
                                 c.push(pop.clone());
                             }
